@@ -103,6 +103,8 @@ def build(scn, trace, fault=None, script=None):
             act = fault[k]
             rec["fault"] = act
             if act[0] == "raise":
+                if len(act) > 2 and act[2] == "noargs":
+                    raise act[1]()  # exceptions without a message (bare assert, `raise MyError`) are exceptions too
                 raise act[1](f"injected fault at call {k}")
             rec["ret"] = act[1]
             return act[1]
